@@ -114,6 +114,16 @@ theorem translated_one_outcome_counter (σ : Env) :
       + cs.count "metrics.Node().Successes.WithLabelValues(nc.Config.ID).Inc") = 1 := by
   rw [C01.translated_handleResult]
   by_cases h1 : σ "err" = 0 <;> by_cases h2 : σ "len(result)" = 0 <;> simp [h1, h2, List.count_cons]
+
+/-- discarded_events_total of the target grows by exactly one per dropped event and by nothing otherwise (one delivery of
+deliverToChild, translated from the source) -/
+theorem translated_discard_counter (σ : Env) :
+    ((obs Trans.deliverBody σ).calls.map (·.1)).count "metrics.Node().DiscardedEvents.WithLabelValues(childNode.Config.ID).Inc" =
+      (if σ "room childNode.Ch" = 0 ∧ σ "childNode.Config.DiscardOnFullBuffer" ≠ 0 then 1 else 0) ∧
+    ((obs Trans.deliverBody σ).calls.map (·.1)).count "send childNode.Ch" =
+      (if σ "room childNode.Ch" = 0 ∧ σ "childNode.Config.DiscardOnFullBuffer" ≠ 0 then 0 else 1) := by
+  by_cases h1 : σ "room childNode.Ch" = 0 <;> by_cases h2 : σ "childNode.Config.DiscardOnFullBuffer" = 0 <;>
+  minigo_simp [Trans.deliverBody, h1, h2, List.count_cons]
 end Translated
 
 theorem closure_unchanged : GeneratedClo.C16 = ExpectedClo.C16 := by rfl
